@@ -6,6 +6,7 @@ package ugo
 
 import (
 	"context"
+	"time"
 )
 
 // Eval compiles and runs scripts within same scope.
@@ -84,8 +85,16 @@ func (r *Eval) run(ctx context.Context) (ret Object, err error) {
 
 		select {
 		case <-ctx.Done():
-			r.VM.Abort()
-			<-doneCh
+			// Run resets the abort flag when it starts, an Abort called before
+			// that is lost: repeat it until Run returns.
+			for aborted := false; !aborted; {
+				r.VM.Abort()
+				select {
+				case <-doneCh:
+					aborted = true
+				case <-time.After(time.Millisecond):
+				}
+			}
 			if err == nil {
 				err = ctx.Err()
 			}
